@@ -166,6 +166,8 @@ func c10Scen(r *rand.Rand, kind string) *c10Scenario {
 		nv, ne, sc.Top, sc.Blocks, sc.Ties = 2, 1, 4, 14, false
 	case "frozen":
 		nv, ne, sc.Top, sc.Blocks, sc.Ties, sc.Bvd = 4, 0, 4, 10, false, 6
+	case "restake":
+		nv, ne, sc.Top, sc.Blocks, sc.Ties = 3, 0, 4, 9, false
 	case "release":
 		// freeze (missed votes or guilty verdict) -> wait -> RELEASE -> at least 8 more blocks
 		nv, ne, sc.Top, sc.Blocks, sc.Ties, sc.Bvd = 4, r.Intn(2), int64(4+r.Intn(2)), 26, false, 4
@@ -330,6 +332,24 @@ func (g *c10Gen) block(h int64, rep *Replica) (BlockIn, []string) {
 		}
 		if h == 4 {
 			add(txUnstake(sc.Extra[0], oltAmt("7000"), g.memo()), "unstake extra0 7000")
+		}
+		return in, descr
+	case "restake":
+		// corpus case of the fixed finding C10.negative_power_record: unstake everything, stake again in
+		// the block whose EndBlock used to delete the record, later stake and unstake more than the new record
+		v := sc.Vals[2]
+		switch h {
+		case 1:
+			a := fmt.Sprintf("%d", v.Power)
+			add(txUnstake(v, oltAmt(a), g.memo()), "unstake all val2 "+a)
+		case 2:
+			add(txStake(v, oltAmt("435"), g.memo()), "stake val2 435")
+		case 4:
+			add(txStake(v, oltAmt("488"), g.memo()), "stake val2 488")
+			add(txUnstake(v, oltAmt("495"), g.memo()), "unstake val2 495")
+		}
+		for i := 0; i < 2; i++ { // fee traffic so that the pool is above the minimum
+			add(txStake(sc.Vals[0], oltAmt("1"), g.memo()), "stake val0 1")
 		}
 		return in, descr
 	case "release":
@@ -761,7 +781,7 @@ func c10Main(args []string) int {
 		must(ioutil.WriteFile(*child, bz, 0644))
 		return 0
 	}
-	kinds := []string{"e10", "unstake_all", "ghost", "frozen", "release", "fork", "release", "mixed", "mixed", "mixed", "mixed", "mixed"}
+	kinds := []string{"e10", "unstake_all", "ghost", "frozen", "release", "restake", "release", "mixed", "mixed", "mixed", "mixed", "mixed"}
 	cases := []c10Case{}
 	for i := 0; i < *n; i++ {
 		kind := kinds[i%len(kinds)]
